@@ -448,6 +448,13 @@ func (s *Set) Value(_ context.Context, t *dials.Type) (reflect.Value, error) {
 			ffield.Set(fval)
 			return
 		}
+		if fval.Kind() == reflect.Ptr && fval.Type().ConvertibleTo(ffield.Type()) {
+			// the complex-number helpers hand back a pointer to the
+			// predeclared type; the field may be of a user-defined type
+			// with that underlying type.
+			ffield.Set(fval.Convert(ffield.Type()))
+			return
+		}
 
 		if willOverflow(fval, ptrVal.Elem()) {
 			setErr = fmt.Errorf("value for flag %q (%s) would overflow type %s",
